@@ -403,24 +403,21 @@ def LBuf.discard (m : Mem) (l : LBuf) (size : Nat) : Option (Mem × LBuf × Nat)
           | some (m2, l2) => go k m2 l2 (need - sk) (n + sk)
   go (l.sl.length + 2) m l size 0
 
-/-- linkedBuffer.ReadByte once readMore has succeeded -/
-def LBuf.readByte (m : Mem) (l : LBuf) : Option (Mem × LBuf × Nat) :=
-  match l.front? with
-  | none => none
-  | some f =>
-    let (f', d, short) := f.read m 1
-    if !short then some (m, { (l.setFront f') with len := l.len - 1 }, d.headD 0)
-    else
-      match (l.setFront f').readNext m with
-      | none => none
-      | some (m2, l2) =>
-        match l2.front? with
+/-- linkedBuffer.ReadByte once readMore has succeeded: pop used-up slices until one has a byte -/
+def LBuf.readByte.go : Nat → Mem → LBuf → Option (Mem × LBuf × Nat)
+  | 0, _, _ => none
+  | fuel + 1, m, l =>
+    match l.front? with
+    | none => none                                   -- front() == nil
+    | some f =>
+      let (f', d, short) := f.read m 1
+      if !short then some (m, { (l.setFront f') with len := l.len - 1 }, d.headD 0)
+      else
+        match (l.setFront f').readNext m with
         | none => none
-        | some g =>
-          let (g', d2, _) := g.read m2 1
-          match d2 with
-          | [] => none                                 -- r[0] on an empty result
-          | x :: _ => some (m2, { (l2.setFront g') with len := l2.len - 1 }, x)
+        | some (m2, l2) => LBuf.readByte.go fuel m2 l2
+
+def LBuf.readByte (m : Mem) (l : LBuf) : Option (Mem × LBuf × Nat) := LBuf.readByte.go (l.sl.length + 1) m l
 
 /-- linkedBuffer.ReadString(size) once readMore has succeeded -/
 def LBuf.readString (m : Mem) (l : LBuf) (size : Nat) : Option (Mem × LBuf × List Nat) :=
